@@ -272,7 +272,9 @@ func padding(t *tape.Tape, n int) string {
 				k = rem - 2 // one long comment line
 			}
 			sb.WriteString(strings.Repeat(" ", t.Intn(3)))
-			sb.WriteString("#" + strings.Repeat("c", k) + "\n")
+			// comment text may hold anything up to the end of the line
+			unit := []string{"c", "c", "c \"q\" ", "it's `r` ", "#{y} ", "\\ ?c |. ", "é日本 "}[t.Intn(7)]
+			sb.WriteString("#" + strings.Repeat(unit, (k+len(unit)-1)/len(unit)) + "\n")
 		default:
 			sb.WriteString(strings.Repeat(" ", 1+t.Intn(4)) + strings.Repeat("\t", t.Intn(2)) + "\n")
 		}
@@ -422,6 +424,9 @@ func (c *c16Check) Run(seed, run uint64, rec []uint32, st Stats, only *Viol) []V
 			// strings, raw strings, comments and embedded pieces may hold any text:
 			// multi-byte characters (cut points inside a rune), blanks, a lone `#`
 			unit = []string{"q", "é", "日本", "q q", "q#"}[unitKind]
+			if tk == 3 && t.Chance(1, 2) {
+				unit = []string{"q\"q", "q`q", "#{q", "'q ?q"}[t.Intn(4)] // comments may contain quotes and `#{`
+			}
 		}
 		long := strings.Repeat(unit, (n+len(unit)-1)/len(unit))
 		switch tk {
